@@ -66,7 +66,7 @@ ClosureX(h, S0) == LET S1 == S0 \ {0} IN S1 \cup UNION {h.ev[i].hx : i \in S1}
 
 \* operations after which the property expects the task's clock to have advanced
 Advancing(k, r) ==
-  \/ k \in {"lock", "unlock", "load", "store", "swap", "fadd", "fsub", "fmax", "fmin", "cas", "spawn", "spawn_named", "join",
+  \/ k \in {"lock", "unlock", "load", "store", "swap", "fadd", "fsub", "fmax", "fmin", "cas", "fand", "for", "fxor", "fnand", "b_swap", "b_and", "b_or", "b_xor", "b_nand", "b_load", "b_store", "spawn", "spawn_named", "join",
             "barrier_wait", "read", "write", "set_flag"}
   \/ (k \in {"try_lock", "try_read", "try_write"} /\ r # 1)
   \/ (k \in {"send", "try_send"} /\ r = 0) \/ (k \in {"recv", "try_recv"} /\ r >= 0)
@@ -93,7 +93,7 @@ HStep(h, s, s2, t, o, r, clk, guard, OIdxOf, tgt, busy) ==
           [] o.k = "write" \/ (o.k = "try_write" /\ r # 1) -> Take(h.rb[m], MaxReads).deps
           [] (o.k = "acquire" /\ r = 0) \/ (o.k = "try_acquire" /\ r = 0) ->
                IF pregranted THEN SetsAt(h.sg, t + 1) ELSE Take(h.sb[m], o.v).deps
-          [] o.k \in {"load", "swap", "fadd", "fsub", "fmax", "fmin", "cas"} -> h.aw[m]
+          [] o.k \in {"load", "swap", "fadd", "fsub", "fmax", "fmin", "cas", "b_load", "fand", "for", "fxor", "fnand", "b_swap", "b_and", "b_or", "b_xor", "b_nand"} -> h.aw[m]
           [] o.k \in {"await_flag", "wake_only", "reg_flag"} -> h.fwr[m]
           \* the end of the child happens before the join (thread join, awaited or probed JoinHandle that delivered)
           [] o.k = "join" \/ (o.k \in {"await_join", "try_join"} /\ r >= 0) -> {LastOrBorn(h, tgt)}
@@ -119,7 +119,7 @@ HStep(h, s, s2, t, o, r, clk, guard, OIdxOf, tgt, busy) ==
           [] o.k \in {"notify_one", "notify_all"} -> h.xv[m]
           [] o.k \in {"read", "write", "try_read", "try_write"} -> h.xr[m]
           [] o.k \in {"acquire", "try_acquire", "release", "close", "avail", "is_closed"} -> h.xs[m]
-          [] o.k \in {"load", "store", "swap", "fadd", "fsub", "fmax", "fmin", "cas"} -> h.xa[m]
+          [] o.k \in {"load", "store", "swap", "fadd", "fsub", "fmax", "fmin", "cas", "b_load", "b_store", "fand", "for", "fxor", "fnand", "b_swap", "b_and", "b_or", "b_xor", "b_nand"} -> h.xa[m]
           [] o.k \in {"await_flag", "set_flag", "wake_only", "reg_flag"} -> h.xf[m]
           [] o.k \in {"send", "try_send", "recv", "try_recv", "clone_tx", "drop_tx", "drop_rx"} -> h.xc[m]
           [] o.k = "barrier_wait" -> h.xb[m]
@@ -141,7 +141,7 @@ HStep(h, s, s2, t, o, r, clk, guard, OIdxOf, tgt, busy) ==
           [] o.k \in {"notify_one", "notify_all"} -> [hh EXCEPT !.xv[m] = @ \cup {n}]
           [] o.k \in {"read", "write", "try_read", "try_write"} -> [hh EXCEPT !.xr[m] = @ \cup {n}]
           [] o.k \in {"acquire", "try_acquire", "release", "close", "avail", "is_closed"} -> [hh EXCEPT !.xs[m] = @ \cup {n}]
-          [] o.k \in {"load", "store", "swap", "fadd", "fsub", "fmax", "fmin", "cas"} -> [hh EXCEPT !.xa[m] = @ \cup {n}]
+          [] o.k \in {"load", "store", "swap", "fadd", "fsub", "fmax", "fmin", "cas", "b_load", "b_store", "fand", "for", "fxor", "fnand", "b_swap", "b_and", "b_or", "b_xor", "b_nand"} -> [hh EXCEPT !.xa[m] = @ \cup {n}]
           [] o.k \in {"await_flag", "set_flag", "wake_only", "reg_flag"} -> [hh EXCEPT !.xf[m] = @ \cup {n}]
           [] o.k \in {"send", "try_send", "recv", "try_recv", "clone_tx", "drop_tx", "drop_rx"} -> [hh EXCEPT !.xc[m] = @ \cup {n}]
           [] o.k = "barrier_wait" -> [hh EXCEPT !.xb[m] = @ \cup {n}]
@@ -164,7 +164,7 @@ HStep(h, s, s2, t, o, r, clk, guard, OIdxOf, tgt, busy) ==
           [] o.k = "release" /\ o.v > 0 ->
                LET ga == GrantAll(Append(hh.sb[m], [n |-> o.v, ev |-> n]), hh.sg, s.sem[m].q, s2.sem[m].granted \ s.sem[m].granted) IN
                [hh EXCEPT !.sb[m] = ga.bs, !.sg = ga.sg]
-          [] o.k \in {"store", "swap", "fadd", "fsub", "fmax", "fmin"} \/ (o.k = "cas" /\ r < 256) -> [hh EXCEPT !.aw[m] = @ \cup {n}]
+          [] o.k \in {"store", "swap", "fadd", "fsub", "fmax", "fmin", "b_store", "fand", "for", "fxor", "fnand", "b_swap", "b_and", "b_or", "b_xor", "b_nand"} \/ (o.k = "cas" /\ r < 256) -> [hh EXCEPT !.aw[m] = @ \cup {n}]
           [] o.k = "set_flag" -> [hh EXCEPT !.fwr[m] = @ \cup {n}]
           [] o.k \in {"spawn", "spawn_named", "sspawn", "spawn_future"} -> [hh EXCEPT !.born = SetAt(@, s.n + 1, n)]
           [] o.k \in {"send", "try_send"} /\ r = 0 -> [hh EXCEPT !.cs[m] = Append(@, n), !.nsend[m] = @ + 1]
